@@ -155,7 +155,7 @@ KERNEL_LINKS = {
     "C03": "RolloutBuffer.compute_returns_and_advantages (buffer/rollout.py) = the GAE recursion for every rollout",
     "C04": "AbstractActorCriticOnPolicyAlgorithm.step (algorithm/on_policy.py) = OnPolicy.op_step for every environment / policy record, incl. what the step callback is handed; collect_rollout with step and post_collect inlined = OnPolicy.collect (scan over split keys, rows in order, bootstrap value from the final state)",
     "C05": "AbstractOffPolicyAlgorithm.step (algorithm/off_policy.py) = OffPolicy.off_step for every environment / policy record and buffer; collect_learning_starts and collect_rollout with step inlined = OffPolicy.off_scan over learning_starts / num_steps keys",
-    "C06": "ReplayBuffer.add and .current_size (buffer/replay.py) = Replay.soa_add / current_size for every buffer of positive capacity",
+    "C06": "ReplayBuffer.add and .current_size (buffer/replay.py) = Replay.soa_add / current_size for every buffer of positive capacity; ReplayBuffer.sample on a single buffer: population = capacity, replace = False, probability exactly zero on the unwritten slots and positive on the written ones",
     "C07": "DQN.dqn_loss (algorithm/dqn.py) and compute_target inside SAC.sac_train (algorithm/sac.py) = Losses.dqn_loss / td_target with sac_vnext, incl. which network sees which inputs",
     "C08": "PPO.ppo_loss (algorithm/ppo.py) = clipped surrogate (Losses.surrogate) / value / entropy / approx-KL terms and their weighted sum",
     "C09": "AbstractBuffer.batch_indices (buffer/base_buffer.py) = Batching.batch_indices for every index vector the shuffle may return and every batch size > 0",
@@ -163,6 +163,7 @@ KERNEL_LINKS = {
     "C11": "AbstractOnPolicyAlgorithm.iteration (with AbstractAlgorithmState.next / with_callback_states inlined) = Observers.iteration; the training part does not depend on the observer or its state",
     "C12": "AbstractOnPolicyAlgorithm.iteration for N > 1 environments: environment i = a single-environment collection from its own state and key split(rollout_key, N)[i]; AbstractOffPolicyAlgorithm.reset for N > 1 = OffPolicy.off_reset (per-environment buffers of capacity buffer_size // N, keys, warm-up)",
     "C13": "every method of TimeLimit (wrapper/misc.py), of AbstractPureObservationWrapper and AbstractPureTransformRewardWrapper, the action-wrapper methods of AbstractPureTransformActionWrapper (with base-class fallback) = Env.wrap1 layers; rescale_box (wrapper/utils.py) on bounded components = rs_forward / rs_backward",
+    "C14": "Discrete.contains, Box.contains, MultiDiscrete.contains in their per-component view on finite rational entries = Spaces.in_rangeb / in_boxb",
     "C19": "LoggingCallbackStepState.next (callback/logging/callback.py) = Logging.l_next field by field",
     "C20": "initial_gait_phase, advance_gait_phase, desired_foot_height (env/unitree/g1/gait.py, per-foot view) = Gait.initial_phase / advance1 / foot_height at half period PI",
 }
